@@ -134,10 +134,10 @@ package websocket
 //@   prop C09 C10
 //@   nopanic
 //@   requires c != nil && c.results != nil
-//@   requires [index_not_pending] !haskey(c.results, index)
 //@   modifies c.results[*], ghost.held[addr(c.lock)]
-//@   ensures [registered] haskey(c.results, index) && c.results[index] == resultChan
-//@   ensures [other_registrations_untouched] forall(k, k != index ==> haskey(c.results, k) == old(haskey(c.results, k)) && c.results[k] == old(c.results[k]))
+//@   ensures [never_overwrites_a_pending_call] stored == !old(haskey(c.results, index))
+//@   ensures [registered] stored ==> haskey(c.results, index) && c.results[index] == resultChan
+//@   ensures [other_registrations_untouched] forall(k, k != index || !stored ==> haskey(c.results, k) == old(haskey(c.results, k)) && c.results[k] == old(c.results[k]))
 //@   ensures [lock_released] ghost.held[addr(c.lock)] == 0
 
 //@ func (*conn).delete
@@ -192,6 +192,7 @@ package websocket
 //@   nopanic
 //@   requires c != nil && c.results != nil
 //@   modifies c.counter, c.results[*], ghost.held[addr(c.lock)], ghost.chansent[*], ghost.chanlen[*], ghost.chanrecv[*]
+//@   loop 1 invariant 0 <= index && index < 2147483648
 //@   ensures [index_is_31_bit] 0 <= index && index < 2147483648
 //@   ensures [gave_up_leaves_no_entry] err != nil && ghost.chanrecv[resultChan] == 0 ==> !haskey(c.results, index)
 
